@@ -40,6 +40,7 @@ SPEC = dict(
         "floating-point operands (value 'within rounding' is not a theorem; the checker answers SKIP:operand-float)",
         "non-integer exponents (radicals, symbolic exponents): no Lean theorem, numeric oracle only at 6 generic complex points, rel. tol. 1e-9",
         "values on branch cuts / at singularities (excluded by the property text)",
+        "known finding C07-invpow-negative-real: pow(pow(c,-1),b) -> c**(-b) for constant c on the negative real axis, non-integer b (conjugate value); reported by the numeric oracle under the key invpow-negreal",
         "canonical-form assertions raised inside the constructors on radical operands are counted (radical_ops_canonical_assert_ignored) and left to C03",
         "completeness of the checker (a value-preserving result could in principle be rejected) is tested, not proved; soundness is proved",
     ],
